@@ -4,7 +4,8 @@
 (* (C03, C04; the membership half of C05 at heap level).                   *)
 (*                                                                         *)
 (* There is no yield inside _heap_lock, so every API entry is one action:  *)
-(*   Dispatch        _AsyncProcessRequestImpl: __Get (downq scan: drop     *)
+(*   Dispatch(pick, nst)  (parameters: aperture only, see below)           *)
+(*                   _AsyncProcessRequestImpl: __Get (downq scan: drop     *)
 (*                   discarded nodes, resurrect nodes whose channel is     *)
 (*                   Open with load -= Penalty + FixUp; take heap[1]; if   *)
 (*                   it is not Open and not yet marked down: push on the   *)
@@ -19,7 +20,8 @@
 (*   LateArrive(n)   a late reply for a request whose stack was already    *)
 (*                   drained: the stack is empty, nothing runs             *)
 (*   AddSink(e) / JoinDup(e)        on_join -> __AddServer -> _AddSink     *)
-(*   RemoveSink(e) / LeaveUnknown(e) on_leave -> __RemoveServer ->         *)
+(*   RemoveSink(e, pick, nst) / LeaveUnknown(e)  on_leave ->               *)
+(*                   __RemoveServer ->                                     *)
 (*                   _RemoveSink (swap with the last, FixDown, pop,        *)
 (*                   index = -1, Close() iff load = Idle or load >= 0)     *)
 (*   ChanFlip(n, st) environment: a channel goes down / comes back         *)
